@@ -2,6 +2,7 @@
 From Coq Require Import NArith Bool List Lia.
 From RS.Gen Require Import Prelude GenConsts.
 From RS.Model Require Import Field Tables Sched Codec Spec.
+From RS.Proofs Require Import FieldFacts Ring FftSpec Lagrange Cauchy.
 Import ListNotations.
 Local Open Scope N_scope.
 
@@ -17,10 +18,10 @@ Print Assumptions C02_consts.
    beta_i^2 + beta_i = beta_(i-1), in polynomial-basis arithmetic (mulx = times x mod P) *)
 Fixpoint pmul_fuel (n : nat) (a b : N) : N :=
   match n with O => 0 | S k => N.lxor (if N.odd b then a else 0) (pmul_fuel k (mulx a) (N.div2 b)) end.
-Definition pmul := pmul_fuel 16.
+Definition pmul16 := pmul_fuel 16.
 Theorem C02_cantor_relations :
   nth 0 CANTOR_BASIS 0 = 1 /\
-  forallb (fun i => N.lxor (pmul (nth (S i) CANTOR_BASIS 0) (nth (S i) CANTOR_BASIS 0)) (nth (S i) CANTOR_BASIS 0)
+  forallb (fun i => N.lxor (pmul16 (nth (S i) CANTOR_BASIS 0) (nth (S i) CANTOR_BASIS 0)) (nth (S i) CANTOR_BASIS 0)
                     =? nth i CANTOR_BASIS 0) (seq 0 15) = true.
 Proof. vm_compute. split; reflexivity. Qed.
 Print Assumptions C02_cantor_relations.
@@ -30,12 +31,59 @@ Print Assumptions C02_cantor_relations.
    checked on all pairs of basis elements and on the generator's powers
    (the algebraic lifting to all pairs is FieldFacts, in progress) *)
 Theorem C02_field_basis :
-  forallb (fun i => forallb (fun j => phi (fmul (2 ^ i) (2 ^ j)) =? pmul (phi (2 ^ i)) (phi (2 ^ j))) (range 0 16)) (range 0 16) = true.
+  forallb (fun i => forallb (fun j => phi (fmul (2 ^ i) (2 ^ j)) =? pmul16 (phi (2 ^ i)) (phi (2 ^ j))) (range 0 16)) (range 0 16) = true.
 Proof. vm_compute. reflexivity. Qed.
 Print Assumptions C02_field_basis.
 
+(* ---------- closed form = algorithm: the general theorems ---------- *)
+(* For EVERY configuration of the envelope, every engine schedule, every input and whatever
+   junk the unused work positions hold, symbol j of the encoder output is row j of the scaled
+   Cauchy matrix of Spec.v applied to the originals.  Spec.recovery_*_spec uses field
+   operations only (fmul/fdiv: Ring.fmul_spec ties them to 0x1002D and the Cantor basis).
+   Proof: ifft interpolates (FftTrunc), fft evaluates (FftSpec + Trunc), Lagrange interpolation
+   over subspace cosets (Lagrange.lagrange), W_m = 1 in the Cantor basis. *)
+Theorem C02_high : forall e K R w, 1 <= K -> 1 <= R -> npow2 R + K <= 65536 ->
+  Forall (fun x => x < 65536) w -> length w = N.to_nat (high_enc_work_count K R) ->
+  forall j, N.of_nat j < R ->
+  nth j (encode_high sym_ops e K R w) 0 = recovery_high_spec K R (firstn (N.to_nat K) w) (N.of_nat j).
+Proof. exact encode_high_cauchy. Qed.
+Print Assumptions C02_high.
+
+Theorem C02_low : forall e K R w, 1 <= K -> 1 <= R -> npow2 K + R <= 65536 ->
+  Forall (fun x => x < 65536) w -> (N.to_nat (npow2 K) <= length w)%nat ->
+  forall j, N.of_nat j < R ->
+  nth j (encode_low sym_ops e K R w) 0 = recovery_low_spec K R (firstn (N.to_nat K) w) (N.of_nat j).
+Proof. exact encode_low_cauchy. Qed.
+Print Assumptions C02_low.
+
+(* ... and for whole shards: every 16-bit slot l of every recovery shard j *)
+Theorem C02_high_shards : forall lanes e K R (w : list (list N)), 1 <= K -> 1 <= R -> npow2 R + K <= 65536 ->
+  Forall (fun s => length s = lanes) w -> Forall (Forall (fun x => x < 65536)) w ->
+  length w = N.to_nat (high_enc_work_count K R) ->
+  forall j l, N.of_nat j < R -> (l < lanes)%nat ->
+  nth l (nth j (encode_high (shard_ops lanes) e K R w) []) 0 =
+  recovery_high_spec K R (map (fun s => nth l s 0) (firstn (N.to_nat K) w)) (N.of_nat j).
+Proof. exact encode_high_cauchy_shards. Qed.
+Print Assumptions C02_high_shards.
+Theorem C02_low_shards : forall lanes e K R (w : list (list N)), 1 <= K -> 1 <= R -> npow2 K + R <= 65536 ->
+  Forall (fun s => length s = lanes) w -> Forall (Forall (fun x => x < 65536)) w ->
+  (N.to_nat (npow2 K) <= length w)%nat ->
+  forall j l, N.of_nat j < R -> (l < lanes)%nat ->
+  nth l (nth j (encode_low (shard_ops lanes) e K R w) []) 0 =
+  recovery_low_spec K R (map (fun s => nth l s 0) (firstn (N.to_nat K) w)) (N.of_nat j).
+Proof. exact encode_low_cauchy_shards. Qed.
+Print Assumptions C02_low_shards.
+
+(* the interpolation theorem behind them *)
+Theorem C02_lagrange : forall k, (k <= 15)%nat -> forall c u x, length c = Nat.pow 2 k ->
+  Forall (fun x => x < 65536) c -> u < 65536 -> x < 65536 -> N.shiftr (N.lxor x u) (N.of_nat k) <> 0 ->
+  lch k c x = xsum (Nat.pow 2 k) (fun v => fmul (lch k c (N.lxor u (N.of_nat v)))
+                                               (fdiv (s_poly k (N.lxor x u)) (N.lxor (N.lxor x u) (N.of_nat v)))).
+Proof. exact lagrange. Qed.
+Print Assumptions C02_lagrange.
+
 (* closed form = algorithm, for every configuration with K, R <= 6, both rates, both
-   schedules, on a fixed data vector (instances; the unbounded theorem is in progress) *)
+   schedules, on a fixed data vector (instances, kept as non-vacuity checks of the theorems above) *)
 Definition data (K : N) : list N := map (fun i => (i * 40503 + 977) mod 65536) (range 0 K).
 Definition high_ok (e : engine) (K R : N) : bool :=
   if list_eq_dec N.eq_dec
